@@ -360,6 +360,7 @@ def decode_graph(rng, model_spec='default', wf=True):
 def handbuilt_graph(rng, connected=True, nvars=None):
     """triples without any markers, random order"""
     n = nvars or rng.randint(1, 6)
+    zero = rng.choice([0, 0.0])
     vs = rng.sample(VARS + ['k', 'm', 'n'], n)
     triples = []
     for v in vs:
@@ -378,7 +379,8 @@ def handbuilt_graph(rng, connected=True, nvars=None):
         if k < 0.4:
             triples.append((s, role(rng, invert=maybe(rng, 0.15)), rng.choice(vs)))
         else:
-            tgt = rng.choice(CONSTS + [None, 0, 0.0, -3, 2.5, 7])
+            # 0 and 0.0 compare (and hash) equal in Python: a graph holding both is outside the model
+            tgt = rng.choice(CONSTS + [None, zero, -3, 2.5, 7])
             triples.append((s, role(rng, invert=maybe(rng, 0.1)), tgt))
     if maybe(rng, 0.7):
         rng.shuffle(triples)
